@@ -1,5 +1,5 @@
 /-
-  C12 — integer paths of `DiscreteUniform` (i64), `Binomial` (u64), `Geometric` (u64 argument, `x as i32`),
+  C12 — integer paths of `DiscreteUniform` (i64), `Binomial` (u64), `Geometric` (u64 argument),
   `Chi` (NonZeroU64).  Same conventions and style as `IntegerHypergeometric.lean`:
   `*_no_underflow` rewrites every `usub a b` of the function to `a - b` (∀α, also IEEE `Float`);
   overflow of `+`/`-`/`*` on machine integers is NOT modelled, so it is stated as explicit range
@@ -7,12 +7,12 @@
 
   Binomial     cdf/sf/pmf/ln_pmf_no_underflow — unconditional (each `n - x` sits behind `x < n`/`x ≤ n`)
                entropy: range end `n + 1` overflows exactly at `n = u64::MAX` (witness).
-  Geometric    ln_pmf_no_underflow — for every `u64` argument (`x - 1` sits behind `x ≠ 0`)
-               pmf: `x as i32 - 1`.  `geometric_pmf_no_wrap` (1 ≤ x ≤ i32::MAX): exact exponent `x - 1`;
-               `geometric_pmf_i32_sub_overflow_iff`: the `i32` subtraction overflows iff
-               `x ≡ 2³¹ (mod 2³²)` (witness `x = 2147483648`: Rust panics "attempt to subtract with overflow");
-               `geometric_pmf_wrap_counterexample`: for `x > i32::MAX` the cast wraps and the VALUE is wrong
-               (`pmf(x + 2³²) = pmf(x)`, `pmf(2³²+1) = p`; over ℝ `pmf(2³¹+2) > 1` for `p = 1/2`).
+  Geometric    ln_pmf_no_underflow, pmf_no_underflow — for every `u64` argument (`x - 1` sits behind `x ≠ 0`).
+               pmf is `(1 - p).powf((x - 1) as f64) * p`: no `i32` cast any more, so no wrap and no `i32`
+               subtraction.  `geometric_pmf_no_wrap` (every `x ≥ 1`): exponent is exactly `x - 1`;
+               over ℝ `geometric_pmf_real`: `pmf(x) = (1-p)^(x-1)·p` and `geometric_pmf_le_one`:
+               `0 ≤ pmf(x) ≤ 1` for every `u64` argument (`geometric_pmf_large_arg_values`: the arguments
+               `2³²+1`, `2³¹+2` that used to wrap now have the exponents `2³²`, `2³¹+1`).
   Chi          mode_no_underflow (`freedom - 1`, `freedom ≥ 1` by `NonZeroU64`).
   DiscreteUniform (signed, no `usub`):
                `min + max` (mean/median/mode), `max - min` (variance/entropy), `max - min + 1` (pmf/ln_pmf):
@@ -104,53 +104,32 @@ theorem geometric_ln_pmf_no_underflow (d : Geometric α) (x : Int) (hx : 0 ≤ x
   · simp only [if_pos h]
   · simp only [if_neg h, usub_of_le (show (1 : Int) ≤ x by omega)]
 
-/-- `pmf` on `1 ≤ x ≤ i32::MAX`: the cast `x as i32` is exact, `x as i32 - 1` stays in `i32`, and the
-    value is `(1 - p)^(x - 1) · p` -/
-theorem geometric_pmf_no_wrap (d : Geometric α) (x : Int) (h1 : 1 ≤ x) (h2 : x ≤ i32Max) :
-    wrapI32 x = x ∧ InI32 (wrapI32 x - 1) ∧
-    Geometric.pmf d x = RFun.powi ((1.0 : α) - d.f_p) (x - 1) * d.f_p := by
-  have hw : wrapI32 x = x := by
-    simp only [wrapI32, i32Max] at *
-    omega
-  refine ⟨hw, ?_, ?_⟩
-  · rw [hw]; simp only [InI32, i32Min, i32Max] at *; omega
-  · unfold Geometric.pmf
-    rw [if_neg (by omega), hw]
-
-/-- EXACT overflow set of the `i32` subtraction `x as i32 - 1`: `x as i32 = i32::MIN`,
-    i.e. `x ≡ 2³¹ (mod 2³²)` -/
-theorem geometric_pmf_i32_sub_overflow_iff (x : Int) :
-    ¬ InI32 (wrapI32 x - 1) ↔ x % 4294967296 = 2147483648 := by
-  simp only [InI32, wrapI32, i32Min, i32Max]
-  omega
-
-/-- witness: `pmf(2147483648)` (a legal `u64`, `x ≠ 0`) computes `i32::MIN - 1` -/
-theorem geometric_pmf_i32_sub_overflow_witness :
-    InU64 2147483648 ∧ wrapI32 2147483648 = i32Min ∧ ¬ InI32 (wrapI32 2147483648 - 1) := by
-  refine ⟨by decide, by decide, by decide⟩
-
-/-- the `x as i32` cast makes `pmf` 2³²-periodic in `x`: for every accepted `p` and every `x ≥ 1`,
-    `pmf(x + 2³²) = pmf(x)` — a wrong value for the (legal `u64`) argument `x + 2³²`,
-    whose true mass is `(1-p)^(x + 2³² - 1)·p`. -/
-theorem geometric_pmf_wrap_counterexample (d : Geometric α) (x : Int) (hx : 1 ≤ x) :
-    Geometric.pmf d (x + 4294967296) = Geometric.pmf d x := by
-  have hw : wrapI32 (x + 4294967296) = wrapI32 x := by
-    simp only [wrapI32]; omega
+/-- `pmf`: `x - 1` never underflows for a `u64` argument (it sits behind `x ≠ 0`) -/
+theorem geometric_pmf_no_underflow (d : Geometric α) (x : Int) (hx : 0 ≤ x) :
+    Geometric.pmf d x =
+      if x = 0 then (0.0 : α)
+      else RFun.pow ((1.0 : α) - d.f_p) (RFun.ofInt (x - 1) : α) * d.f_p := by
   unfold Geometric.pmf
-  rw [if_neg (by omega), if_neg (by omega), hw]
+  by_cases h : x = 0
+  · simp only [if_pos h]
+  · simp only [if_neg h, usub_of_le (show (1 : Int) ≤ x by omega)]
 
-/-- concrete instances: `pmf(2³² + 1)` has exponent `0`, `pmf(2³¹ + 2)` has exponent `−(2³¹ − 1)` -/
-theorem geometric_pmf_wrap_counterexample_values (d : Geometric α) :
-    Geometric.pmf d 4294967297 = RFun.powi ((1.0 : α) - d.f_p) 0 * d.f_p ∧
-    Geometric.pmf d 2147483650 = RFun.powi ((1.0 : α) - d.f_p) (-2147483647) * d.f_p := by
-  constructor
-  · unfold Geometric.pmf
-    rw [if_neg (by decide), show wrapI32 4294967297 - 1 = 0 by decide]
-  · unfold Geometric.pmf
-    rw [if_neg (by decide), show wrapI32 2147483650 - 1 = -2147483647 by decide]
+/-- `pmf` on EVERY `x ≥ 1` (no upper bound: the exponent is `(x - 1) as f64`, there is no `i32` cast
+    that could wrap and no `i32` subtraction that could overflow): the value is `(1 - p)^(x - 1) · p`
+    with the exact exponent `x - 1`. -/
+theorem geometric_pmf_no_wrap (d : Geometric α) (x : Int) (h1 : 1 ≤ x) :
+    Geometric.pmf d x = RFun.pow ((1.0 : α) - d.f_p) (RFun.ofInt (x - 1) : α) * d.f_p := by
+  rw [geometric_pmf_no_underflow d x (by omega), if_neg (by omega)]
+
+/-- the arguments on which the old `x as i32 - 1` exponent wrapped (`2³² + 1 ↦ 0`,
+    `2³¹ + 2 ↦ −(2³¹ − 1)`) now get the true exponents `2³²` and `2³¹ + 1` -/
+theorem geometric_pmf_large_arg_values (d : Geometric α) :
+    Geometric.pmf d 4294967297 = RFun.pow ((1.0 : α) - d.f_p) (RFun.ofInt 4294967296 : α) * d.f_p ∧
+    Geometric.pmf d 2147483650 = RFun.pow ((1.0 : α) - d.f_p) (RFun.ofInt 2147483649 : α) * d.f_p :=
+  ⟨geometric_pmf_no_wrap d 4294967297 (by decide), geometric_pmf_no_wrap d 2147483650 (by decide)⟩
 
 /-- non-vacuity (Geometric argument ranges) -/
-example : (0 : Int) ≤ 7 ∧ (1 : Int) ≤ 7 ∧ (7 : Int) ≤ i32Max := by decide
+example : (0 : Int) ≤ 7 ∧ (1 : Int) ≤ 7 := by decide
 
 /-! ### Chi -/
 
@@ -261,24 +240,39 @@ theorem discrete_uniform_count_overflow_iff (d : DiscreteUniform) (hle : d.f_min
 example : ∃ d : DiscreteUniform, InI64 d.f_min ∧ InI64 d.f_max ∧ d.f_min ≤ d.f_max ∧ d.f_min ≤ 0 ∧ 0 ≤ d.f_max :=
   ⟨⟨-5, 5⟩, by decide⟩
 
-/-! ### Geometric over ℝ: the wrapped exponent produces a "probability" above 1 -/
+/-! ### Geometric over ℝ: the textbook mass for every `u64` argument -/
 
-/-- `Geometric::new(0.5)` is accepted; over ℝ `pmf(2³¹ + 2) = (1/2)^(−(2³¹−1)) · 1/2 = 2^(2³¹−2) > 1`
-    (the true mass is `(1/2)^(2³¹+2)`).  Exact-arithmetic statement about the algorithm; in IEEE the same
-    expression evaluates to `+inf`. -/
-theorem geometric_pmf_wrap_exceeds_one_counterexample :
-    (1 : ℝ) < Geometric.pmf (⟨1 / 2⟩ : Geometric ℝ) 2147483650 := by
-  have key : ∀ N : ℕ, 2 ≤ N → (1 : ℝ) < ((1 : ℝ) / 2) ^ (-(N : ℤ)) * (1 / 2) := by
-    intro N hN
-    rw [zpow_neg, zpow_natCast, one_div, inv_pow, inv_inv]
-    have h2 : (2 : ℝ) ^ 2 ≤ 2 ^ N := pow_le_pow_right₀ (by norm_num) hN
-    have : (4 : ℝ) ≤ 2 ^ N := by
-      have h4 : (2 : ℝ) ^ 2 = 4 := by norm_num
-      linarith
-    linarith
-  rw [(geometric_pmf_wrap_counterexample_values (⟨1 / 2⟩ : Geometric ℝ)).2]
-  have e : ((1.0 : ℝ) - 1 / 2) = 1 / 2 := by norm_num
-  rw [rfun_powi, e]
-  exact key 2147483647 (by norm_num)
+/-- over ℝ, for every `x ≥ 1` (in particular beyond `i32::MAX`): `pmf(x) = (1 - p)^(x - 1) · p` -/
+theorem geometric_pmf_real (d : Geometric ℝ) (x : Int) (h1 : 1 ≤ x) :
+    Geometric.pmf d x = (1 - d.f_p) ^ (x - 1).toNat * d.f_p := by
+  rw [geometric_pmf_no_wrap d x h1, rfun_pow, rfun_ofInt]
+  have e : ((1.0 : ℝ) - d.f_p) = 1 - d.f_p := by norm_num
+  have hc : ((x - 1 : Int) : ℝ) = (((x - 1).toNat : ℕ) : ℝ) := by
+    have : ((x - 1).toNat : Int) = x - 1 := Int.toNat_of_nonneg (by omega)
+    exact_mod_cast this.symm
+  rw [e, hc, Real.rpow_natCast]
+
+/-- over ℝ, under the constructor's constraint `0 < p ≤ 1`, `pmf` is a probability for EVERY `u64`
+    argument (the old wrapped exponent gave `pmf(2³¹ + 2) > 1` for `p = 1/2`). -/
+theorem geometric_pmf_le_one (d : Geometric ℝ) (hp0 : 0 < d.f_p) (hp1 : d.f_p ≤ 1) (x : Int) (hx : 0 ≤ x) :
+    0 ≤ Geometric.pmf d x ∧ Geometric.pmf d x ≤ 1 := by
+  by_cases h : x = 0
+  · subst h
+    have : Geometric.pmf d 0 = (0.0 : ℝ) := by unfold Geometric.pmf; rw [if_pos rfl]
+    rw [this]; norm_num
+  · rw [geometric_pmf_real d x (by omega)]
+    have hq0 : 0 ≤ 1 - d.f_p := by linarith
+    have hq1 : 1 - d.f_p ≤ 1 := by linarith
+    have hpow0 : 0 ≤ (1 - d.f_p) ^ (x - 1).toNat := pow_nonneg hq0 _
+    have hpow1 : (1 - d.f_p) ^ (x - 1).toNat ≤ 1 := pow_le_one₀ hq0 hq1
+    constructor
+    · exact mul_nonneg hpow0 hp0.le
+    · calc (1 - d.f_p) ^ (x - 1).toNat * d.f_p ≤ 1 * 1 :=
+            mul_le_mul hpow1 hp1 hp0.le (by norm_num)
+        _ = 1 := by norm_num
+
+/-- the former counterexample argument: `Geometric::new(0.5)`, `pmf(2³¹ + 2) = (1/2)^(2³¹+1)·(1/2) ≤ 1` -/
+example : Geometric.pmf (⟨1 / 2⟩ : Geometric ℝ) 2147483650 ≤ 1 :=
+  (geometric_pmf_le_one ⟨1 / 2⟩ (by norm_num) (by norm_num) 2147483650 (by norm_num)).2
 
 end Statrs.Props.C12
